@@ -40,6 +40,19 @@ theorem openFds_child (streams : Nat) (f : Fresh) (t : FdTable) (h : f.Ok t) (x 
     simp only [closeIf_apply, dupCloseIf_apply, mkPipe_apply, Bool.false_eq_true, if_false, if_true, false_and, true_and] <;> grind
 
 
+theorem closeBothIf_apply (p : Nat × Nat) (t : FdTable) (x : Nat) :
+    closeBothIf p t x = if p.1 ≠ 0 then (if x = p.2 then none else if x = p.1 then none else t x) else t x := by
+  unfold closeBothIf; split <;> simp [close_apply]
+
+/-- a failed `open` leaves the descriptor table as it was -/
+theorem openFdsFailed_restores (streams : Nat) (f : Fresh) (t : FdTable) (h : f.Ok t) (x : Nat) :
+    openFdsFailed streams f t x = t x := by
+  obtain ⟨hp, hx⟩ := h
+  simp only [List.pairwise_cons, List.mem_cons, List.not_mem_nil, or_false, forall_eq_or_imp, forall_eq] at hp hx
+  unfold openFdsFailed createPipes
+  cases bit streams 1 <;> cases bit streams 2 <;> cases bit streams 4 <;>
+    simp only [closeBothIf_apply, mkPipe_apply, Bool.false_eq_true, if_false, if_true] <;> grind
+
 theorem openFds_fields (streams : Nat) (f : Fresh) (t : FdTable) :
     (openFds streams f t).fdStdOutRead = (if bit streams 1 then f.outR else 0) ∧
     (openFds streams f t).fdStdErrRead = (if bit streams 2 then f.errR else 0) ∧
